@@ -51,6 +51,9 @@ func c07Scenarios(thorough bool) []c07Scenario {
 		{Name: "finalize-retried-after-a-stale-header", Setup: []enga.ABlock{ev(enga.Event{Kind: "req:withdraw", N: 2}), ev(enga.Event{Kind: "tx:process", N: 2}), ev(enga.Event{Kind: "tx:hashes", N: 1}),
 			ev(enga.Event{Kind: "tx:finalize", Var: "stale-header"})}, Block: ev(enga.Event{Kind: "tx:finalize"})},
 		{Name: "downtime+evidence", Block: enga.ABlock{Absent: []int{1}, Evidence: []int{1}}, Setup: []enga.ABlock{{Absent: []int{1}}}},
+		// the only weighted token loses its weight: nobody has voting power any more, every member of
+		// the set leaves at once (whatever the module does then, it does the same on every replica)
+		{Name: "every-candidate-loses-its-power", Setup: []enga.ABlock{ev(enga.Event{Kind: "req:create", N: 3})}, Block: ev(enga.Event{Kind: "req:weight", N: 0})},
 	}
 	if thorough {
 		sc = append(sc,
@@ -193,6 +196,12 @@ func c07Exec(w *enga.World, blk *sim.Block, txs [][]byte, mode string) c07Outcom
 		o.Calls = append(o.Calls, c.Method+":"+c.Digest)
 	}
 	if err := n.Commit(&b, txs, fr); err != nil {
+		if strings.Contains(err.Error(), "validator set would become empty") {
+			// the block removes every validator: CometBFT would refuse that (environment assumption of the
+			// other checks). What FinalizeBlock answered is still comparable across replicas.
+			o.Dump = "not committed: the validator set would become empty"
+			return o
+		}
 		return fail("commit", err)
 	}
 	if mode == "restart-after-commit" {
